@@ -86,7 +86,7 @@ _opaque_sorts = {}
 
 def opaque_sort(name: str):
     if name not in _opaque_sorts:
-        _opaque_sorts[name] = z3.DeclareSort(name)
+        _opaque_sorts[name] = z3.DeclareSort("U_" + name)      # prefixed: List, Map, ... are reserved sort names in the solvers
     return _opaque_sorts[name]
 
 
